@@ -7,7 +7,7 @@ inputs - outputs < fee => InsufficientFunds(missing), > fee => ChangeRequired(ex
 with bundle sizes = padded shape, real spends/outputs = requested, the rest zero-valued dummies.
 
 1. TLC on the specification alone (MC_Builder): the theorems of Builder.tla on every request of an
-   exhaustive finite domain (union of slices; ~2.5*10^4 requests).
+   exhaustive finite domain (union of slices; ~2.1*10^4 requests).
 2. spec -> code (R): TLC prints every request with concrete amounts and the verdict; c14_replay
    materialises each (real keys, notes in tiny real commitment trees, transparent P2PKH / P2SH
    multisig coins) and runs Builder::get_fee, build_for_pczt (+ Creator / into_effects), the full
@@ -102,7 +102,17 @@ def describe(q):
 
 
 def judge(ctx, res):
-    for m in res["mismatches"][:3]:
+    # up to four reports, of different kinds of disagreement where there are several
+    chosen, kinds = [], set()
+    for m in res["mismatches"]:
+        k = m.get("key", m["kind"])
+        if k not in kinds:
+            kinds.add(k)
+            chosen.append(m)
+    chosen = (chosen + [m for m in res["mismatches"] if m not in chosen])[:4]
+    if len(kinds) > 1:
+        lib.log("kinds of disagreement in this run: %s" % json.dumps(sorted(kinds)))
+    for m in chosen:
         if m["kind"] == "validator":
             lib.violation(ctx, {"property": "C14", "kind": "validator", "coin": m["coin"], "info": m["info"], "seed": ctx.seed},
                           "%s: coin %s with spend information %s: the specification says accept=%s, the code: %s"
@@ -159,8 +169,6 @@ def run(ctx):
     if res["validator_calls"] != 2 * 36:
         raise lib.ToolError("vacuity: %d validator calls" % res["validator_calls"])
 
-    if not ctx.quick():
-        probes(ctx, bindir)
     ctx.traces = len(cases) + res["validator_calls"]
     by = {}
     for c in cases:
@@ -188,38 +196,9 @@ def run(ctx):
             "and unbalanced, ...) any of them is accepted",
             "the signature hash used by the script interpreter's callback is the library's signature_hash (bound to ZIP 244/243 by C04)",
             "Sapling proofs are mocked in the full build; zero-knowledge proof soundness is not decided",
-            "a bundle required by BundlePadding.bundle_required in a pool the request does not use is outside the domain when the "
-            "proposed version cannot carry it, and for DeferredPcztBuilder (see notes/c14-report.md)",
+            "a bundle required by BundlePadding.bundle_required counts as requested: it must be emitted (dummy actions) and the version "
+            "must carry it, for Builder and DeferredPcztBuilder alike",
         ])
-
-
-STD_RULE = {"kind": "zip317", "m": 5000, "g": 2, "pin": 150, "pout": 34, "fixed": 0}
-
-
-def probe_case(regime, hsel, pv, opad, ipad, anch, shape):
-    """A transparent coin of exactly the fee + a bundle that BundlePadding.bundle_required asks for in a pool the request
-    does not use.  Outside MC_Builder's domain (see notes/c14-report.md); executed for the record only."""
-    fee = 5000 * max(2, 1 + shape["ao"] + shape["ai"])
-    q = {"slice": "probe", "regime": regime, "hsel": hsel, "pv": pv, "pvWhen": "after", "rule": STD_RULE, "tin": ["pkh"], "tinV": [fee],
-         "tout": [], "toutV": [], "sInV": [], "sOutV": [], "oInV": [], "oOutV": [], "oChgV": [], "iInV": [], "iOutV": [],
-         "opad": opad, "ipad": ipad, "anch": anch, "keys": "exact", "delta": 0}
-    x = {"k": "ok", "amt": 0, "altK": "ok", "altAmt": 0, "addable": True, "fee": fee, "ver": pv, "shape": dict(shape, tin=1, tout=0, ss=0, so=0),
-         "vb": {"t": fee, "s": 0, "o": 0, "i": 0}, "pcztRefused": False, "signOk": True}
-    return {"q": q, "x": x}
-
-
-def probes(ctx, bindir):
-    """Requests outside the domain whose behaviour is reported in notes/c14-report.md; never a verdict."""
-    for what, case in (
-        ("NU6.2 height, proposed v4, Orchard bundle_required, nothing Orchard requested",
-         probe_case("nu5", 1, "V4", "required", "default", {"s": False, "o": True, "i": False}, {"ao": 2, "ai": 0})),
-        ("NU6.3 height, proposed v5, Ironwood bundle_required, nothing Ironwood requested",
-         probe_case("nu63", 0, "V5", "default", "required", {"s": False, "o": False, "i": True}, {"ao": 0, "ai": 2})),
-    ):
-        res = execute_at(ctx, bindir, case, 7)
-        seen = "; ".join(e for m in res["mismatches"] for e in m["errors"]) or "builds a transaction that carries the required bundle"
-        lib.log("note (outside the domain, not judged): %s -> %s" % (what, seen[:500]))
-        ctx.extra.setdefault("probes_outside_domain", []).append({"request": what, "observed": seen[:500]})
 
 
 # ------------------------------------------------------------------------------------------------
